@@ -104,7 +104,7 @@ func runC04(p *Program, r *Report) {
 	for _, m := range []struct {
 		r string
 		n int
-	}{{"C04.R1", 250}, {"C04.R2", 7}, {"C04.R3", 5}, {"C04.R4", 5}, {"C04.R5", 5}, {"C04.R6", 4}, {"C04.R7", 4}, {"C04.R8", 1}, {"C04.R9", 5}, {"C04.R10", 1}, {"C04.R11", 3}, {"C04.R12", 4}} {
+	}{{"C04.R1", 250}, {"C04.R2", 7}, {"C04.R3", 5}, {"C04.R4", 5}, {"C04.R5", 5}, {"C04.R6", 4}, {"C04.R7", 4}, {"C04.R8", 1}, {"C04.R9", 5}, {"C04.R10", 1}, {"C04.R11", 3}, {"C04.R12", 4}, {"C04.R13", 2}, {"C04.R14", 1}} {
 		r.Min(m.r, m.n)
 	}
 	pl, err := loadPolicy(p)
@@ -257,6 +257,8 @@ func runC04(p *Program, r *Report) {
 	checkNewAttributeStartsClean(p, r, "C04.R10")
 	checkScannerLoopState(p, r, "C04.R11")
 	checkLookupArgumentRoles(p, r, "C04.R12")
+	checkCommentKeepsElement(p, r, "C04.R13")
+	checkTagEndTablesSeeAllNames(p, r, "C04.R14")
 }
 
 func fnNameOrNone(f *ssa.Function) string {
@@ -617,6 +619,28 @@ func checkEnums(p *Program, r *Report, pl *Policy) {
 				ok = allPathsGuard(ci.CE.pv, vb, g, 0)
 			}
 			r.Check(ok, "C04.R4", fmt.Sprintf("template.sanitizersForAttributeValue#partial-enum-guard-%s@%s", flag, alt.Names()), p.Pos(alt.Ret.Pos()), "reached only when the context is not an enum or conditional branches agree on the static value", "a chain is returned for an enum context although conditional branches wrote different static values before the action (join() keeps one of them, possibly the empty one, and sets attr."+flag+"): "+"`<a target=\"{{if .C}}x{{end}}{{.X}}\">` passes the empty-value test")
+		}
+		// two actions in one enumerated value compose an unlisted word: the record escapeAction keeps of an action
+		// that started the value must be consulted as well
+		af := actionStartFlags(p)
+		if len(af) == 0 {
+			r.Viol("C04.R4", fmt.Sprintf("template.sanitizersForAttributeValue#enum-after-action@%s", alt.Names()), p.Pos(alt.Ret.Pos()), "nothing records that an action has already written into the attribute value: a second action in an enumerated attribute composes an unlisted word", "`<a dir=\"{{.D}}{{.D}}\">` emits dir=\"ltrltr\"")
+		}
+		for _, flag := range af {
+			g := func(a Atom) bool {
+				if a.E.Op == "call" && a.E.Fn == f && !a.Pol {
+					return true
+				}
+				return a.E.Op == "field" && a.E.Name == flag && !a.Pol
+			}
+			ok := allPathsGuard(ci.CE.pv, alt.Ret.Block(), g, 0)
+			for _, vb := range alt.Via {
+				if ok {
+					break
+				}
+				ok = allPathsGuard(ci.CE.pv, vb, g, 0)
+			}
+			r.Check(ok, "C04.R4", fmt.Sprintf("template.sanitizersForAttributeValue#enum-after-action-%s@%s", flag, alt.Names()), p.Pos(alt.Ret.Pos()), "reached only when the context is not an enum or no earlier action wrote into the value", "a chain is returned for an enum context although an earlier action already wrote into the same attribute value (escapeAction sets attr."+flag+"): two listed words compose an unlisted one — `<a dir=\"{{.D}}{{.D}}\">` emits dir=\"ltrltr\"")
 		}
 	}
 }
